@@ -3,7 +3,7 @@ import os
 import vlib, gen_conv, gen_units, docs
 from vlib import hx, unhx, case_line, show
 
-THEOREMS = ["C06_roundtrip", "C06_lines", "C06_quote_value_safe", "C06_write_calls", "C06_generated_services_have_no_newline", "C06_generated_services_line_count", "C06_conversion_adds_no_newline", "C06_parsed_units_have_no_newline"]
+THEOREMS = ["C06_roundtrip", "C06_lines", "C06_quote_value_safe", "C06_write_calls", "C06_generated_services_have_no_newline", "C06_generated_services_line_count", "C06_conversion_keeps_the_shape", "C06_parsed_units_are_shaped", "C06_generated_services_are_shaped", "C06_generated_services_read_back"]
 
 
 def inventory(ctx):
